@@ -26,6 +26,11 @@ let ext_fixed = fixed_mode   (* both patches are in /repo: b2362f9, a46069b *)
 let fix2 = ext_fixed && not (try Sys.getenv "SELEN_ROUTES_FIX2_PREFIX" = "1" with Not_found -> false)
 let rbuild prog = if fix2 then rbuild_fix2 prog else if ext_fixed then rbuild_ext_fixed prog else if fixed_mode then rbuild_fixed prog else rbuild prog
 let rexec s m = if fix2 then rexec_fix2 s m else if ext_fixed then rexec_ext_fixed s m else if fixed_mode then rexec_fixed s m else rexec s m
+(* The repair fixes/d12_operands/d12_validation_operands.patch (finding D12: validate_constraint_parameters counts operands, the divisor is
+   the second operand): rvalidate of coq/Model/Routes.v is the repaired validator and the default; SELEN_D12_PREFIX=1 selects
+   rvalidate_prefix, the validator before it (witnesses of the former classes mod_const / const_const) *)
+let d12_fixed = not (try Sys.getenv "SELEN_D12_PREFIX" = "1" with Not_found -> false)
+let rvalidate s ps = if d12_fixed then rvalidate s ps else rvalidate_prefix s ps
 let kf_noop_route r = if fixed_mode then false else kf_noop_route r
 let kf_felement_bounds r s = if fixed_mode then false else kf_felement_bounds r s
 
@@ -272,9 +277,9 @@ let rknown_class (prog : rstmt list) : string =
        let r = rn_route (ruv !m) r0 in
        let st = fst (!m).rst in
        if kf_noop_route r then set "noop_route";
-       if kf_mod_const r then set "mod_const";
+       if not d12_fixed && kf_mod_const r then set "mod_const";          (* repaired: a recurrence is a violation *)
        if kf_mod_zero_div r st then set "mod_zero_div";
-       if kf_const_const r then set "const_const";
+       if not d12_fixed && kf_const_const r then set "const_const";      (* repaired *)
        if kf_felement_bounds r st then set "felement_bounds";
        if not fixed_mode && kf_linreif_len r then set "linreif_len";   (* repaired by e45322d *)
        if kf_linreif_zero r then set "lin_zero_coeffs";
